@@ -126,7 +126,9 @@ def coord_value(q, e):
         i = q["i"] % n
         return 0.5 * (float(e[i]) + float(e[i + 1]))
     if q["kind"] == "in":
-        return float(e[0]) + q["t"] * ext
+        # clamp: e[0] + 1.0 * (e[-1] - e[0]) can land one ulp beyond the last edge, i.e. outside the grid, where the
+        # lower/upper rules are not defined by the docs
+        return min(max(float(e[0]) + q["t"] * ext, float(e[0])), float(e[-1]))
     base = float(e[-1]) if q["sign"] > 0 else float(e[0])
     return base + q["sign"] * q["t"] * ext * (2.0 if q["kind"] == "out" else 1e3)
 
